@@ -9,6 +9,8 @@ id=$1; src=$2; shift 2
 V=$(cd "$(dirname "$0")/.." && pwd)
 dst=$V/seeded/$id
 mkdir -p "$dst"
+# several queues may work through overlapping lists: first come, first served
+mkdir "/tmp/eval-lock-$id" 2>/dev/null || { echo "already taken: $id"; exit 0; }
 cp "$src/patch.diff" "$src/demo.py" "$dst/" 2>/dev/null
 [ -f "$src/notes.md" ] && cp "$src/notes.md" "$dst/notes.md"
 wt=/tmp/ev-$id
